@@ -340,7 +340,7 @@ def cases(tier, seed):
     shifts = [(0, 0, 0, 1), (0, 0, 0, -1), (0, 0, 1, 0), (0, 0, -1, 0), (0, 1, 0, 0), (0, -1, 0, 0), (1, 0, 0, 0), (-1, 0, 0, 0), (0, 0, 0, 2), (0, 0, 0, -3),
               (0, 1, 0, 1), (0, -2, 1, 0), (0, 0, 0, 30), (0, 12, 0, 0), (0, 0, 52, 0), (0, 0, 0, -365)]
     for name in zs:
-        trs = T.transition_probes(name, rnd, per_zone=(4 if quick else 12))
+        trs = T.transition_probes(name, rnd, per_zone=(6 if quick else 40))
         for (tt, o_pre, o_post) in trs:
             probes = T.wall_probes(tt, o_pre, o_post)
             if quick:
@@ -370,7 +370,7 @@ def cases(tier, seed):
                 if k % 4 == 0:
                     out.append(_mk("dst-target", "minus", name, W0, f, a))
     # ---- random integer tuples
-    nrand = 2500 if quick else 40000
+    nrand = 6000 if quick else 150000
     zr = zs[:25] if quick else zs
     for _ in range(nrand):
         k += 1
@@ -413,7 +413,7 @@ def cases(tier, seed):
         if _aware_ok(c):
             out.append(c)
     # ---- float region: correspondence only (Duration normalisation is inexact there: C09)
-    for _ in range(60 if quick else 1500):
+    for _ in range(150 if quick else 3000):
         a = [rnd.choice([0, 0, 3, -7]), rnd.choice([0, 0, 5, -11]), 0, rnd.randint(-140000, 140000), 0, 0, rnd.randint(-86400, 86400), rnd.randint(-999999, 999999)]
         W0 = T.wall_of(_dt.datetime(5000, 1, 1)) + rnd.randrange(0, 365 * US_DAY)
         spec = rnd.choice([None, "UTC", 3600])
@@ -421,7 +421,7 @@ def cases(tier, seed):
         if _aware_ok(c):
             out.append(c)
     # ---- Interval operands (between two UTC datetimes) and plain timedeltas
-    for _ in range(500 if quick else 8000):
+    for _ in range(1500 if quick else 30000):
         k += 1
         Wa = T.wall_of(_dt.datetime(1950, 1, 1)) + rnd.randrange(0, 100 * 365 * US_DAY)
         span = rnd.choice([rnd.randrange(-3 * US_DAY, 3 * US_DAY), rnd.randrange(-400 * US_DAY, 400 * US_DAY), rnd.randrange(-40 * 365 * US_DAY, 40 * 365 * US_DAY),
@@ -442,7 +442,7 @@ def cases(tier, seed):
         c = {"stream": "interval", "fn": fn, "args": [spec, W0, f, ["iv", Wa, Wb]]}
         if _aware_ok(c):
             out.append(c)
-    for _ in range(400 if quick else 6000):
+    for _ in range(1000 if quick else 20000):
         k += 1
         N = rnd.choice([rnd.randrange(-3 * US_DAY, 3 * US_DAY), rnd.randrange(-4000 * US_DAY, 4000 * US_DAY), rnd.randrange(-400, 400) * US_DAY,
                         rnd.randrange(-10 ** 7, 10 ** 7), rnd.randrange(-90000, 90000) * MEG])
@@ -460,7 +460,7 @@ def cases(tier, seed):
         if _aware_ok(c):
             out.append(c)
     # ---- helpers.add_duration directly (incl. the date + time-elements RuntimeError)
-    for _ in range(150 if quick else 3000):
+    for _ in range(400 if quick else 6000):
         W0 = rnd.randrange(0, T.MAX_WALL)
         isdt = rnd.randrange(2)
         if not isdt:
